@@ -117,6 +117,18 @@ def valid_payload(rng, kind, total_len=None):
                     vend = rand_bytes(rng, ln)
             elif r < 0.30:      # binary vendor data with zero bytes at its ends / only zero bytes
                 vend = rng.choice([bytes(rng.randrange(1, 5)), vend + b"\0", vend + b"\0\0", b"\0" + vend])
+            elif r < 0.42:
+                # the layout of a FOREIGN encoder: string blocks whose length field is ODD and that carry no pad byte (the validator and
+                # the accessors advance by exactly the declared length, so this is a consistent payload; a validator that pads odd lengths
+                # rejects it or reads behind it)
+                hdr = be(rng.getrandbits(64), 8) + be(rng.getrandbits(64), 8) + be(rng.getrandbits(32), 4) + be(rng.getrandbits(16), 2) + be(rng.getrandbits(8), 1) + be(rng.getrandbits(8), 1) + b"\0" + be(rng.getrandbits(8), 1)
+                blocks = b""
+                for _i in range(4):
+                    t = rand_text(rng, rng.choice([0, 1, 2, 3, 5, 7])) + b"\0"
+                    if rng.random() < 0.3:
+                        t = t[:-1]
+                    blocks += be(len(t), 2) + t
+                return TY[kind], hdr + blocks + be(len(vend), 2) + vend
         else:
             # 26 + 4*(2+2) + 2 = 44 minimum
             room = max(0, total_len - 44)
